@@ -11,7 +11,7 @@ use crate::val::Val;
 
 pub const ID: &str = "C18";
 
-pub const RULE: &str = "cases = (grammar, input, input kind in {&str, &[char], Stream}): C01/C02/C08-class grammars (incl. lookahead, repetition with all consumers, foldl_with / foldr_with, recover_with, validate) in which EVERY node is wrapped in map_with(|v, e| (e.span(), *e.state())), select! closures and fold_with callbacks read e.state() too; the state is an Inspector (count, FNV hash of the tokens) whose checkpoint is a snapshot (on_token folds the token in, on_save copies, on_rewind restores). Oracles: (a) position consistency, oracle-free: every observation made when a node finished at position e equals fold(S0, tokens[0..e]) (e taken from the node's own span), and after a successful parse the caller's state equals fold(S0, all tokens), for parse_with_state and check_with_state; (b) reference: the complete output incl. all observations equals the reference's (which threads state by position and scope); (c) with_state(s): the sub-parser starts from a fresh copy of s on every invocation (observations inside = fold(s, tokens consumed inside this invocation so far)) and the outer state neither sees those tokens nor changes otherwise (outer observations afterwards = the outer fold without the inner tokens). Nothing is required of the state after a failed parse. NON-TRIVIAL = the reference abandoned an attempt after it had consumed input before an observation on the surviving path, or observations lie under and_is / rewind, or a recovery fired, or a with_state node was entered more than once; distinct = distinct (sub-check, grammar, input).";
+pub const RULE: &str = "cases = (grammar, input, input kind in {&str, &[char], Stream}): C01/C02/C08-class grammars (incl. lookahead, repetition with all consumers, foldl_with / foldr_with, recover_with, validate) in which EVERY node is wrapped in map_with(|v, e| (e.span(), *e.state())), select! closures and fold_with callbacks read e.state() too; the state is an Inspector (count, FNV hash of the tokens) whose checkpoint is a snapshot (on_token folds the token in, on_save copies, on_rewind restores). Oracles: (a) position consistency, oracle-free: every observation made when a node finished at position e equals fold(S0, tokens[0..e]) (e taken from the node's own span), and after a successful parse the caller's state equals fold(S0, all tokens), for parse_with_state and check_with_state; (b) reference: the complete output incl. all observations equals the reference's (which threads state by position and scope); (c) with_state(s): the sub-parser starts from a fresh copy of s on every invocation (observations inside = fold(s, tokens consumed inside this invocation so far)) and the outer state neither sees those tokens nor changes otherwise (outer observations afterwards = the outer fold without the inner tokens). Nothing is required of the state after a failed parse. State guard: on index-addressed inputs / ASCII text and grammars without with_state, select! closures reject their token when the state they see is not the fold of the tokens before the current position, so an inconsistent state inside not(), ignored(), the dropped side of then_ignore or check mode changes acceptance (templates for those positions); a token type whose equality is coarser than what the inspector looks at (3 parsers x every string over {a b c} up to length 6 / 8). NON-TRIVIAL = the reference abandoned an attempt after it had consumed input before an observation on the surviving path, or observations lie under and_is / rewind, or a recovery fired, or a with_state node was entered more than once; distinct = distinct (sub-check, grammar, input).";
 
 pub const ASSUMPTIONS: &[&str] = &[
     "map_with closures are pure and may be skipped where the value is discarded (then no observation exists on either side)",
@@ -69,8 +69,17 @@ fn run_kind<'s, I: Kind<'s>>(sub: &str, g: &G, toks: &[char], mk: &dyn Fn() -> I
         bld.obs_state = true;
         bld.build(g)
     };
+    // state guard: select closures reject a token when the state they see is not the fold of the tokens before the
+    // current position -- observable also where no output is built (under not(), to_slice(), check mode)
+    let has_ws = g.any_node(&|n| matches!(n, G::WithState(..)));
+    let guard = !has_ws && (sub.ends_with("slice") || sub.ends_with("stream") || toks.iter().all(|c| c.is_ascii()));
+    STATE_GUARD.with(|x| x.set(guard));
     let o = run_parse(&p, mk());
     let c = run_check(&p, mk());
+    STATE_GUARD.with(|x| x.set(false));
+    if guard && g.any_node(&|n| matches!(n, G::Not(a) if a.any_node(&|m| matches!(m, G::Select(_))))) {
+        l.bump("state_guard_under_not");
+    }
     l.evals += 2;
     if o.panic.is_some() || c.panic.is_some() {
         if g.any_node(&|n| matches!(n, G::Recover(..))) {
@@ -79,7 +88,6 @@ fn run_kind<'s, I: Kind<'s>>(sub: &str, g: &G, toks: &[char], mk: &dyn Fn() -> I
         }
         return fail(case, "C18/panic", format!("panicked: {:?} {:?}", o.panic, c.panic));
     }
-    let has_ws = g.any_node(&|n| matches!(n, G::WithState(..)));
     let mut matched = None;
     let mut first = None;
     for (i, r) in refs.iter().enumerate() {
@@ -179,6 +187,9 @@ pub fn check_case(case: &Case, l: &mut Local) -> Result<(), Fail> {
     if case.sub == "text-static" {
         return text_case(&case.input, l).map_err(|(_, f)| f);
     }
+    if case.sub == "coarse-eq-static" {
+        return coarse_case(&case.input, l).map_err(|(_, f)| f);
+    }
     check_inner(&case.sub, &case.g, &case.toks(), l).map_err(|(_, f)| f)
 }
 
@@ -207,6 +218,14 @@ pub fn templates() -> Vec<G> {
         G::Then(b(G::Recover(b(G::Then(b(j("a")), b(j("b")))), Strat::SkipUntil { skip: b(G::Any), until: b(G::OneOf("c".into())), tag: 1 })), b(rep(G::Any, 0, None, Sink::Vec))),
         G::Then(b(G::Recover(b(G::Then(b(j("a")), b(j("b")))), Strat::SkipRetry { skip: b(G::Any), until: b(G::End) })), b(rep(G::Any, 0, None, Sink::Vec))),
         G::Then(b(G::Recover(b(G::Then(b(j("a")), b(j("b")))), Strat::Via(b(G::To(b(G::Any), 901))))), b(rep(G::Any, 0, None, Sink::Vec))),
+        // select! closures (which read the state and, under the state guard, reject on an inconsistent one) in
+        // positions where no output is built: under not(), to_slice(), ignored(), the dropped side of then_ignore
+        G::Then(b(G::Not(b(G::Then(b(j("a")), b(G::Select("abc".into())))))), b(rep(G::Any, 0, None, Sink::Vec))),
+        G::Then(b(G::Any), b(G::Then(b(G::Not(b(G::Then(b(G::Any), b(G::Select("bc".into())))))), b(rep(G::Any, 0, None, Sink::Vec))))),
+        G::Then(b(G::Ignored(b(G::Then(b(G::Any), b(G::Select("abc".into())))))), b(rep(G::Any, 0, None, Sink::Vec))),
+        G::Then(b(G::ThenIgnore(b(G::Any), b(G::Then(b(G::OrNot(b(j("b")))), b(G::Select("abc".into())))))), b(rep(G::Any, 0, None, Sink::Vec))),
+        G::Then(b(rep(G::Then(b(G::Select("ab".into())), b(G::Select("ab".into()))), 0, None, Sink::Bare)), b(rep(G::Any, 0, None, Sink::Vec))),
+        G::Then(b(G::AndIs(b(G::Then(b(G::Any), b(G::Any))), b(G::Not(b(G::Then(b(G::Select("a".into())), b(G::Select("b".into())))))))), b(rep(G::Any, 0, None, Sink::Vec))),
         // with_state: fresh copy per invocation, outer untouched
         G::Then(b(rep(G::WithState(b(G::Then(b(G::Any), b(G::OrNot(b(j("b")))))), 3), 0, None, Sink::Vec)), b(G::End)),
         G::Then(b(G::Any), b(G::Then(b(G::WithState(b(rep(G::OneOf("ab".into()), 0, None, Sink::Vec)), 2)), b(rep(G::Any, 0, None, Sink::Vec))))),
@@ -327,6 +346,112 @@ fn text_case(s: &str, l: &mut Local) -> CaseRes {
     Ok(())
 }
 
+// ---------------------------------------------------------------------------------------------
+// a token type whose equality is coarser than what the inspector looks at (a lexer token compared by kind, carrying an
+// id): "feeding it exactly the tokens before the current position" means the INPUT's tokens, not the pattern's
+
+#[derive(Clone, Copy, Debug)]
+struct CTok {
+    kind: char,
+    id: u8,
+}
+impl PartialEq for CTok {
+    fn eq(&self, o: &CTok) -> bool {
+        self.kind == o.kind
+    }
+}
+#[derive(Clone, Copy, Debug, PartialEq, Default)]
+struct IdFold(u64, u64);
+impl IdFold {
+    fn step(&mut self, t: &CTok) {
+        self.0 += 1;
+        self.1 = (self.1 ^ (t.id as u64 + 1) ^ ((t.kind as u64) << 8)).wrapping_mul(0x100000001b3);
+    }
+}
+impl<'s, I: chumsky::input::Input<'s, Token = CTok>> chumsky::inspector::Inspector<'s, I> for IdFold {
+    type Checkpoint = IdFold;
+    fn on_token(&mut self, t: &CTok) {
+        self.step(t)
+    }
+    fn on_save<'p>(&self, _: &chumsky::input::Cursor<'s, 'p, I>) -> IdFold {
+        *self
+    }
+    fn on_rewind<'p>(&mut self, c: &chumsky::input::Checkpoint<'s, 'p, I, IdFold>) {
+        *self = *c.inspector();
+    }
+}
+
+fn coarse_case(s: &str, l: &mut Local) -> CaseRes {
+    use chumsky::prelude::*;
+    let chars: Vec<char> = s.chars().collect();
+    let case = |name: &str| {
+        let mut c = Case::new(ID, "coarse-eq-static", &G::Empty, &chars);
+        c.extra = serde_json::json!({ "parser": name });
+        c
+    };
+    // ids 1.. in the input; the patterns carry id 0
+    let toks: Vec<CTok> = chars.iter().enumerate().map(|(i, c)| CTok { kind: *c, id: (i as u8 % 5) + 1 }).collect();
+    type CE<'a> = chumsky::extra::Full<chumsky::error::EmptyErr, IdFold, ()>;
+    type CC<'a> = chumsky::extra::Full<chumsky::error::EmptyErr, IdFold, CTok>;
+    let t = |k: char| CTok { kind: k, id: 0 };
+    let fams: Vec<(&str, chumsky::Boxed<'_, '_, &[CTok], Vec<(usize, IdFold)>, CE>)> = vec![
+        (
+            "just(a).or(just(b)).or(any()) observed per item",
+            just::<_, &[CTok], CE>(t('a')).or(just(t('b'))).or(any()).map_with(|_, e| (e.span().end, *e.state())).repeated().collect::<Vec<_>>().boxed(),
+        ),
+        (
+            "just([a, b]) | just([a]) | one_of | none_of",
+            choice((just::<_, &[CTok], CE>([t('a'), t('b')]).ignored(), just([t('a')]).ignored(), one_of([t('b')]).ignored(), none_of([t('a')]).ignored()))
+                .map_with(|_, e| (e.span().end, *e.state()))
+                .repeated()
+                .collect::<Vec<_>>()
+                .boxed(),
+        ),
+        (
+            "just(a).configure(seq from ctx) / any",
+            any::<&[CTok], CE>()
+                .rewind()
+                .ignore_with_ctx(just::<_, &[CTok], CC>(t('a')).configure(|cfg, ctx: &CTok| cfg.seq(CTok { kind: ctx.kind, id: 0 })).map_with(|_, e| (e.span().end, *e.state())))
+                .repeated()
+                .collect::<Vec<_>>()
+                .boxed(),
+        ),
+    ];
+    let fold_to = |end: usize| {
+        let mut f = IdFold::default();
+        toks[..end].iter().for_each(|t| f.step(t));
+        f
+    };
+    for (name, p) in fams {
+        for check in [false, true] {
+            let mut st = IdFold::default();
+            let r = crate::run::quietly(|| {
+                if check {
+                    p.check_with_state(&toks[..], &mut st).into_output_errors().0.map(|()| vec![])
+                } else {
+                    p.parse_with_state(&toks[..], &mut st).into_output_errors().0
+                }
+            });
+            l.evals += 1;
+            let Ok(out) = r else {
+                return Err((case(name), Fail::new("C18/panic", format!("{} panicked on {:?}", name, s))));
+            };
+            if let Some(obs) = out {
+                for (end, got) in obs {
+                    if got != fold_to(end) {
+                        return Err((case(name), Fail::new("C18/observation-vs-direct-fold", format!("{} on tokens {:?}: a map_with closure finishing at token {} saw state {:?} but the input's tokens before that position fold to {:?} (token equality ignores the id, the inspector does not)", name, toks, end, got, fold_to(end)))));
+                    }
+                    l.bump("coarse_eq_observations_checked");
+                }
+                if st != fold_to(toks.len()) {
+                    return Err((case(name), Fail::new("C18/final-state", format!("{} on tokens {:?} ({}): the caller's state after the parse is {:?} but the whole input folds to {:?}", name, toks, if check { "check" } else { "parse" }, st, fold_to(toks.len())))));
+                }
+            }
+        }
+    }
+    Ok(())
+}
+
 pub fn run(tier: Tier, seed: u64) -> i32 {
     let ctx = Ctx::new(ID, tier, seed);
     ctx.replay_corpus(&check_case);
@@ -350,6 +475,15 @@ pub fn run(tier: Tier, seed: u64) -> i32 {
     ctx.par_jobs(&chunks, |ch, l| {
         for s in ch.iter() {
             text_case(s, l)?;
+        }
+        Ok(())
+    });
+    // tokens whose equality is coarser than what the inspector sees
+    let cstrings: Vec<String> = all_strings(&['a', 'b', 'c'], ctx.pick(6, 8)).into_iter().map(|v| v.into_iter().collect()).collect();
+    let cchunks: Vec<&[String]> = cstrings.chunks(200).collect();
+    ctx.par_jobs(&cchunks, |ch, l| {
+        for s in ch.iter() {
+            coarse_case(s, l)?;
         }
         Ok(())
     });
